@@ -2,6 +2,6 @@ From GD Require Import C04.Bytes C03.Write C03.Sie.
 Require Import ExtrOcamlBasic.
 Extraction Language OCaml.
 Extraction "model.ml" x86_64 all_types mkSex zero_sample raw_put raw_decode raw_layout
-  mkOop oop_put oop_finish oop_abs oop_get_doc oop_get_code
-  sieh_open sie_put sie_put_flushed sie_get sie_sync sie_reopen sie_abs sie_layout sie_parse recs sh
+  mkOop oop_put oop_finish oop_abs oop_get
+  sie_open sie_put sie_get sie_reopen sie_abs sie_layout sie_parse recs
   array_write bit_out bit_in mplex_spec mplex_code.
